@@ -15,5 +15,5 @@ trap 'rm -rf "$S"' EXIT
 rsync -a --exclude .git "$REPO"/ "$S"/
 cp "$D"/*_test.go "$S/$PKG/"
 export GOFLAGS=-mod=mod GOPROXY=off GOSUMDB=off GOTOOLCHAIN=local; unset GOWORK
-cd "$S" && go test -vet=off -count=1 -timeout 120s -run "$RUN" "./$PKG/" 2>&1 | tail -40
+cd "$S" && go test -vet=off -count=1 -timeout 120s -run "$RUN" "./$PKG/" 2>&1 | tail -${REPRO_TAIL:-40}
 exit ${PIPESTATUS[0]}
